@@ -3,7 +3,7 @@ from __future__ import annotations
 
 PROP = "C14"
 BUDGET = {
-    "quick": dict(shards=16, cases=4800, deadline=80),
+    "quick": dict(shards=16, cases=3200, deadline=80),
     "thorough": dict(shards=16, cases=24000, deadline=1500),
 }
 DECIDING = ["frozen", "c14.alias"]
